@@ -834,7 +834,7 @@ fn segment() -> u64 {
 }
 
 fn sweep_segmented(ctx: &Ctx, sp: &Space, policy_index: usize, max_nodes: u32, scope_nodes: u32, loop_nodes: u32, fresh_upto: u64) -> Result<Acc, String> {
-    let exe = std::env::current_exe().map_err(|e| e.to_string())?;
+    let exe = crate::supervise::frozen_exe();
     let dir = std::path::PathBuf::from(format!("/verif/target/scratch/c01-{}", std::process::id()));
     std::fs::create_dir_all(&dir).map_err(|e| e.to_string())?;
     let mut acc = Acc::new();
